@@ -326,6 +326,10 @@ def tasks(tier):
     # total must leave size 0 (shared with C06, bounded native)
     import props.C06 as P6
     ts.append(Task('float-boundary', P6.t_float_boundary, extra=dict(x, bounded='98 decimal histories on the grid 0.05..2.2 (native, binary floats)')))
+    # "at every point": the position hooks a strategy runs inside a fill see the account after the exchange has released the
+    # order's reservation, i.e. Order.execute tells the exchange before the position (shared with C05)
+    import props.C05 as P5
+    ts += [t for t in P5.tasks(tier) if t.id.startswith('execute.ACTIVE.')]
     return ts
 
 
